@@ -19,9 +19,9 @@ const survTime = time.Second
 
 func init() {
 	vexplore.Register("C07", func(tier string) []*vexplore.Scenario {
-		d, b := 5, 1
+		d, b := 5, 2
 		if tier == "thorough" {
-			d, b = 6, 2
+			d, b = 7, 3
 		}
 		return []*vexplore.Scenario{
 			{Name: fmt.Sprintf("surveyor-hist-D%d", d), Mode: "hist", Reset: kit.ResetGlobals, Body: func() { hist(d) },
